@@ -336,6 +336,10 @@ public:
 
   /// Returns the number of allowed foreground and background tasks.
   static auto estimateTaskLimits(unsigned numLanes) -> std::pair<unsigned, unsigned> {
+    // The lane count is a suggestion; a queue without any lane would accept
+    // jobs and never run them.
+    numLanes = std::max(1u, numLanes);
+
     llbuild_rlim_t curOpenFileLimit = llbuild::basic::sys::getOpenFileLimit();
     const unsigned reservedFileCount =   3 /* stdin, stdout, stderr */
                                        + 2 /* Database */
